@@ -87,11 +87,13 @@ Definition own_del (cs : list conn) (c : N) (k : key) : list conn :=
   upd_conn cs c (fun x => mkConn (c_id x) (c_active x) (remove_last (key_eqb k) (c_owned x)) (c_rules x)).
 
 Definition with_conns (b : bus) (cs : list conn) : bus :=
-  mkBus cs (b_services b) (b_pending b) (b_next b) (b_maxnames b) (b_maxrules b) (b_maxreplies b).
+  mkBus cs (b_services b) (b_pending b) (b_next b) (b_maxnames b) (b_maxrules b) (b_maxreplies b) (b_uidcount b) (b_maxconns b).
 Definition with_services (b : bus) (ss : list (key * queue)) : bus :=
-  mkBus (b_conns b) ss (b_pending b) (b_next b) (b_maxnames b) (b_maxrules b) (b_maxreplies b).
+  mkBus (b_conns b) ss (b_pending b) (b_next b) (b_maxnames b) (b_maxrules b) (b_maxreplies b) (b_uidcount b) (b_maxconns b).
+Definition with_uidcount (b : bus) (n : N) : bus :=
+  mkBus (b_conns b) (b_services b) (b_pending b) (b_next b) (b_maxnames b) (b_maxrules b) (b_maxreplies b) n (b_maxconns b).
 Definition with_pending (b : bus) (ps : list pend) : bus :=
-  mkBus (b_conns b) (b_services b) ps (b_next b) (b_maxnames b) (b_maxrules b) (b_maxreplies b).
+  mkBus (b_conns b) (b_services b) ps (b_next b) (b_maxnames b) (b_maxrules b) (b_maxreplies b) (b_uidcount b) (b_maxconns b).
 
 (* ---- flags and queues --------------------------------------------------------- *)
 Definition has_flag (flags f : N) : bool := negb (N.land flags f =? 0).
@@ -122,6 +124,8 @@ Definition is_nil {A} (l : list A) : bool := match l with [] => true | _ => fals
 
 (* ---- primitive state changes and their hooks ----------------------------------- *)
 Inductive action :=
+| AUidInc                                   (* bus_connection_complete: adjust_connections_for_uid (+1); nothing takes it back
+                                               when cache_peer_loginfo_string fails afterwards (finding F14.4) *)
 | AComplete (c : N)                         (* bus_connection_complete, tail: the connection becomes active; no undo *)
 | ACreateOwn (k : key) (c : N) (flags : N)  (* bus_registry_ensure: new service, first owner, hash insert; cancel_ownership hook *)
 | AAddOwner (k : key) (c : N) (flags : N)   (* bus_service_add_owner, new BusOwner appended / inserted after the first link; cancel_ownership hook *)
@@ -181,12 +185,13 @@ Definition head_conn (q : queue) : option N := match q with [] => None | x :: _ 
 
 Definition do_action (a : action) (b : bus) : option (bus * list hook) :=
   match a with
+  | AUidInc => Some (with_uidcount b (b_uidcount b + 1), [])
   | AComplete c => Some (with_conns b (set_active (b_conns b) c), [])
   | ACreateOwn k c flags =>
       match lookup (b_services b) k with
       | Some _ => None
       | None => Some (mkBus (own_add (b_conns b) c k) (b_services b ++ [(k, [new_owner c flags])]) (b_pending b)
-                            (b_next b) (b_maxnames b) (b_maxrules b) (b_maxreplies b),
+                            (b_next b) (b_maxnames b) (b_maxrules b) (b_maxreplies b) (b_uidcount b) (b_maxconns b),
                       [HCancelOwner k c])
       end
   | AAddOwner k c flags =>
@@ -200,7 +205,7 @@ Definition do_action (a : action) (b : bus) : option (bus * list hook) :=
                         then h :: o :: t                       (* _dbus_list_insert_after (first link) *)
                         else q ++ [o] in                       (* _dbus_list_append *)
               Some (mkBus (own_add (b_conns b) c k) (set_queue (b_services b) k q') (b_pending b)
-                          (b_next b) (b_maxnames b) (b_maxrules b) (b_maxreplies b),
+                          (b_next b) (b_maxnames b) (b_maxrules b) (b_maxreplies b) (b_uidcount b) (b_maxconns b),
                     [HCancelOwner k c])
           end
       | _ => None
@@ -231,7 +236,7 @@ Definition do_action (a : action) (b : bus) : option (bus * list hook) :=
           match find_owner q c with
           | None => None                                       (* _dbus_list_unlink (NULL) *)
           | Some _ => Some (mkBus (own_del (b_conns b) c k) (put_queue (b_services b) k (remove_first (is_conn c) q)) (b_pending b)
-                                  (b_next b) (b_maxnames b) (b_maxrules b) (b_maxreplies b), [])
+                                  (b_next b) (b_maxnames b) (b_maxrules b) (b_maxreplies b) (b_uidcount b) (b_maxconns b), [])
           end
       | None => None
       end
@@ -282,7 +287,7 @@ Definition cancel_hook (h : hook) (b : bus) : option bus :=
                 | Some q => put_queue (b_services b) k (remove_last (is_conn c) q)
                 | None => b_services b
                 end in
-      Some (mkBus (own_del (b_conns b) c k) ss (b_pending b) (b_next b) (b_maxnames b) (b_maxrules b) (b_maxreplies b))
+      Some (mkBus (own_del (b_conns b) c k) ss (b_pending b) (b_next b) (b_maxnames b) (b_maxrules b) (b_maxreplies b) (b_uidcount b) (b_maxconns b))
   | HRestoreRemoved k o before slot => restore_ownership k o before slot false b
   | HRestoreSwapped k o before => restore_ownership k o before O true b
   | HRemoveRule c r => Some (with_conns b (rules_del (b_conns b) c r))
